@@ -406,3 +406,64 @@ def gen_type_lemmas2(meta):
         tabz = ["0real", "0real", "(2real / 15real)", "0real"]
         L("sph_j2_zero", reals(X), zero_h, [f"{m('sph_j2', p, [X])} == {G.slift(p, X, tabz)}" for p in outs], ["C15", "C10"], "sph_j2 at x = 0: lift of the Maclaurin table (0, 0, 2/15, 0)")
     return out
+
+
+# ----------------------------------------------------------------------------------------------
+# C11: nalgebra field-trait methods = the corresponding generic dual operation; constants
+# ----------------------------------------------------------------------------------------------
+FIELD_CONSTS = {"pi": "PI", "two_pi": "TAU", "frac_pi_2": "FRAC_PI_2", "frac_pi_3": "FRAC_PI_3", "frac_pi_4": "FRAC_PI_4",
+                "frac_pi_6": "FRAC_PI_6", "frac_pi_8": "FRAC_PI_8", "frac_1_pi": "FRAC_1_PI", "frac_2_pi": "FRAC_2_PI",
+                "frac_2_sqrt_pi": "FRAC_2_SQRT_PI", "e": "E", "log2_e": "LOG2_E", "log10_e": "LOG10_E", "ln_2": "LN_2", "ln_10": "LN_10"}
+FIELD_FWD = ["recip", "sin", "cos", "tan", "asin", "acos", "atan", "sinh", "cosh", "tanh", "asinh", "acosh", "atanh",
+             "log2", "log10", "ln", "ln_1p", "sqrt", "exp", "exp2", "exp_m1", "cbrt"]
+
+
+def gen_field_lemmas(meta):
+    G = Gen(meta)
+    ty, outs, leaves = G.ty, G.outs, G.leaves
+    out = []
+    X, B, Cv = G.var("x"), G.var("b"), G.var("c")
+    have, m = G.have, G.m
+
+    def L(name, params, req, ens, what):
+        out.append(Lemma(f"lem_{ty}_{name}", params, req, ens, ["C11"], what))
+
+    for g in FIELD_FWD:
+        if have("cf_" + g) and have(g):
+            L("cf_" + g, reals(X), [], [f"{m('cf_' + g, p, [X])} == {m(g, p, [X])}" for p in outs], f"ComplexField::{g} returns the generic dual operation {g}")
+    if have("cf_sin_cos") and have("sin_cos"):
+        L("cf_sin_cos", reals(X), [], [f"{m('cf_sin_cos', k + p, [X])} == {m('sin_cos', k + p, [X])}" for k in ("0_", "1_") for p in outs], "ComplexField::sin_cos")
+    if have("cf_powi") and have("powi"):
+        L("cf_powi", reals(X) + ", n: int", [], [f"{m('cf_powi', p, [X], ['n'])} == {m('powi', p, [X], ['n'])}" for p in outs], "ComplexField::powi")
+    for nm in ["cf_powf", "cf_powc"]:
+        if have(nm) and have("powd"):
+            L(nm, reals(X + B), [], [f"{m(nm, p, [X, B])} == {m('powd', p, [X, B])}" for p in outs], f"{nm}: power with a dual exponent = powd")
+    if have("cf_mul_add") and have("mul_add"):
+        L("cf_mul_add", reals(X + B + Cv), [], [f"{m('cf_mul_add', p, [X, B, Cv])} == {m('mul_add', p, [X, B, Cv])}" for p in outs], "ComplexField::mul_add")
+    for nm in ["cf_abs", "cf_modulus", "cf_norm1"]:
+        if have(nm) and have("abs"):
+            L(nm, reals(X), [], [f"{m(nm, p, [X])} == {m('abs', p, [X])}" for p in outs], f"{nm} = Signed::abs (selected operand keeps its own derivative parts)")
+    if have("cf_modulus_squared") and have("mul_rr"):
+        L("cf_modulus_squared", reals(X), [], [f"{m('cf_modulus_squared', p, [X])} == {m('mul_rr', p, [X, X])}" for p in outs], "modulus_squared = self * self")
+    if have("cf_scale") and have("mul_rr"):
+        L("cf_scale", reals(X + B), [], [f"{m('cf_scale', p, [X, B])} == {m('mul_rr', p, [X, B])}" for p in outs], "scale = product")
+    if have("cf_unscale") and have("div_rr"):
+        L("cf_unscale", reals(X + B), [], [f"{m('cf_unscale', p, [X, B])} == {m('div_rr', p, [X, B])}" for p in outs], "unscale = quotient")
+    for nm in ["cf_from_real", "cf_real", "cf_conjugate"]:
+        if have(nm):
+            L(nm, reals(X), [], [f"{m(nm, p, [X])} == x_{p}" for p in outs], f"{nm} is the identity")
+    for nm in ["cf_imaginary", "cf_argument"]:
+        if have(nm):
+            L(nm, reals(X), [], [f"{m(nm, p, [X])} == 0real" for p in outs], f"{nm} is zero")
+    if have("cf_log") and have("ln") and have("div_rr"):
+        lnx, lnb = G.mjet("ln", [X]), G.mjet("ln", [B])
+        L("cf_log", reals(X + B), [], [f"{m('cf_log', p, [X, B])} == {m('div_rr', p, [lnx, lnb])}" for p in outs], "logarithm to a dual base = ln x / ln b as dual numbers")
+    if have("cf_is_finite"):
+        L("cf_is_finite", reals(X), [], [f"{m('cf_is_finite', 'ret', [X])} == is_finite_r(x_re)"], "is_finite looks at the real part")
+    if have("rf_atan2") and have("atan2"):
+        L("rf_atan2", reals(X + B), [], [f"{m('rf_atan2', p, [X, B])} == {m('atan2', p, [X, B])}" for p in outs], "RealField::atan2 = DualNum::atan2")
+    for fn_, cn in FIELD_CONSTS.items():
+        if have("rf_" + fn_):
+            vals = dict(zip(leaves, G.const(f"c_{cn}()")))
+            L("rf_" + fn_, "", [], [f"{m('rf_' + fn_, p, [])} == {vals[p]}" for p in outs], f"RealField::{fn_}() is the constant {cn} with zero derivative parts")
+    return out
